@@ -190,6 +190,14 @@ def gen_cases(ctx):
                 bump("perm_kind", pk)
             bump("det", name); bump("style", style); bump("dim", dim)
             cases.append({"det": name, "params": params, "data": data, "perm": perm, "seed": (ctx.seed + 31 * k) % 100000})
+    # one history with test batches larger than any plausible internal block size: a row-blocked
+    # implementation must not make the leaf divergence depend on which rows come last
+    big = [[[float(rng.gauss(0, 1))] for _ in range(80)]]
+    for shift in (0.0, 0.6):
+        big.append([[float(rng.gauss(shift if j % 2 else 0.0, 1))] for j in range(4500)])
+    cases.append({"det": "KdqTreeBatch", "params": {"alpha": 0.2, "bootstrap_samples": 5, "count_ubound": 8}, "data": big,
+                  "perm": [gen_perm(rng, rows, "sort") for rows in big], "seed": (ctx.seed + 977) % 100000})
+    bump("det", "KdqTreeBatch"); bump("style", "large-batch")
     return cases
 
 
